@@ -504,6 +504,13 @@ func (x *Exec) unop(fr *Frame, in *ssa.UnOp, st *State) Value {
 		r := x.load(st, a)
 		// memory-model axiom: every cell holds a valid value of its type
 		x.assume(x.w.validFacts(r, in.Type(), st.alloc, 0))
+		if a.root == rField && len(a.path) == 0 {
+			n, s := x.fieldComp(a.structT, a.field)
+			x.baseValid(x.comp(st, n, s), in.Type(), a.ref)
+		} else if a.root == rElem && len(a.path) == 0 {
+			n, s := x.elemComp(a.elemT)
+			x.baseValid(x.comp(st, n, s), in.Type(), a.arr, a.idx)
+		}
 		return r
 	case token.NOT:
 		return ts.Not(x.term(fr, in.X))
@@ -715,6 +722,7 @@ func (x *Exec) lookup(fr *Frame, in *ssa.Lookup, st *State) Value {
 		ok := ts.And(notNil, ts.Select(d, k))
 		val := ts.Ite(ok, ts.Select(vv, k), x.w.zeroOf(xt.Elem()))
 		x.assume(x.w.validFacts(val, xt.Elem(), st.alloc, 0))
+		x.baseValid(x.comp(st, vn, SArr(SInt, SArr(ks, vs))), xt.Elem(), m, k)
 		if in.CommaOk {
 			return Tuple{val, ok}
 		}
